@@ -1492,6 +1492,17 @@ def _forget_constants(ctx: Dict[str, object], names: Set[str]) -> None:
             info["length"] = None
 
 
+class _ArgumentSource(str):
+    """Source text of one call argument that remembers where it was written."""
+
+    written_at: Tuple[int, int] = (0, 0)
+
+    def strip(self, chars: Optional[str] = None) -> "_ArgumentSource":
+        stripped = _ArgumentSource(super().strip(chars))
+        stripped.written_at = self.written_at
+        return stripped
+
+
 def _extract_call_argument(
     args_src: str,
     *,
@@ -1541,7 +1552,9 @@ def _extract_call_argument(
     if selected is None:
         return None
 
-    return ast.unparse(selected).strip()
+    source = _ArgumentSource(ast.unparse(selected).strip())
+    source.written_at = (selected.lineno, selected.col_offset)
+    return source
 
 
 def _strip_inline_comment(text: str) -> str:
@@ -2614,6 +2627,7 @@ def _parse_simple_lines(
     button_poll_names = ctx.setdefault("button_poll_names", set())
 
     pending_arg_temps: List[object] = []
+    pending_arg_positions: List[Optional[Tuple[int, int]]] = []
 
     def _evaluate_once(arg_src: str, c_expr: str) -> str:
         """Python evaluates a call argument exactly once, before the call.
@@ -2651,6 +2665,7 @@ def _parse_simple_lines(
         pending_arg_temps.append(
             VarDecl(name=temp_name, c_type=cpp_type, expr=c_expr, global_scope=False)
         )
+        pending_arg_positions.append(getattr(arg_src, "written_at", None))
         return temp_name
 
     def _resolve_numeric_arg(arg_src: Optional[str], default: Union[int, str]) -> Union[int, str]:
@@ -2780,10 +2795,16 @@ def _parse_simple_lines(
     line_start = 0
 
     def _flush_arg_temps() -> None:
-        # the temporaries of a statement's arguments go in front of that statement
+        # the temporaries of a statement's arguments go in front of that statement,
+        # in the order the arguments are written (Python evaluates them left to
+        # right, whatever order the parameters are looked up in)
         if pending_arg_temps:
-            body[line_start:line_start] = pending_arg_temps
+            order = list(range(len(pending_arg_temps)))
+            if all(pos is not None for pos in pending_arg_positions):
+                order.sort(key=lambda k: pending_arg_positions[k])
+            body[line_start:line_start] = [pending_arg_temps[k] for k in order]
             del pending_arg_temps[:]
+            del pending_arg_positions[:]
 
     i = 0
     while i < len(snippet):
